@@ -70,6 +70,11 @@ func c02Bases() []struct {
 		name string
 		img  []byte
 	}{"image-with-64KiB-DOS-stub", pegen.Build(peLongStubLayout())})
+	// not well-formed but accepted by the parser: SizeOfHeaders reaches 8 bytes into the first section
+	out = append(out, struct {
+		name string
+		img  []byte
+	}{"section-inside-headers-image", pegen.Build(pegen.Layout{PE32Plus: true, Lfanew: 0x40, Secs: []pegen.Sec{{RawSize: 24}, {RawSize: 16}}, Trailing: 13, HdrOver: 8})})
 	out = append(out, struct {
 		name string
 		img  []byte
